@@ -23,9 +23,9 @@ if ! go build ./... 2>/tmp/confirm.err; then echo "$name: DOES NOT BUILD"; exit 
 suite=$(go test -vet=off -count=1 ./... 2>&1 | grep -v "no test files"); if echo "$suite" | grep -q "^FAIL\|^---"; then echo "$name: EXISTING SUITE FAILS WITH CHANGE"; echo "$suite" | grep "FAIL" | head -3; exit 3; fi
 cp $src/zz_seeded_demo_test.go $pkgdir/
 tests=$(grep -o '^func Test[A-Za-z0-9_]*' $pkgdir/zz_seeded_demo_test.go | sed 's/func //' | paste -sd'|')
-with=$(go test -vet=off -count=1 -timeout 300s -run "^($tests)\$" ./$pkgdir 2>&1 | tail -3)
+with=$(go test $RACE -vet=off -count=1 -timeout 300s -run "^($tests)\$" ./$pkgdir 2>&1 | tail -3)
 git checkout -q -- . 
-without=$(go test -vet=off -count=1 -timeout 300s -run "^($tests)\$" ./$pkgdir 2>&1 | tail -3)
+without=$(go test $RACE -vet=off -count=1 -timeout 300s -run "^($tests)\$" ./$pkgdir 2>&1 | tail -3)
 rm -f $pkgdir/zz_seeded_demo_test.go
 okw=no; echo "$with" | grep -q "^FAIL\|FAIL" && okw=yes
 okwo=no; echo "$without" | grep -q "^ok" && okwo=yes
